@@ -6,7 +6,7 @@ CONSTANTS
   MaxScopeDepth = 2
   MaxStack = 2
   BindVals <- BV12
-  MaxBindings = 3
+  MaxBindings = 2
   Enabled = {"Bind", "EnterScope", "ExitScope"}
   NameOrder <- Names6
   HookUniverse = {}
